@@ -1,10 +1,13 @@
 package c15
 
 import (
+	"encoding/json"
 	"fmt"
 	"log/slog"
+	"os"
 	"strings"
 	"testing"
+	"time"
 
 	logging "github.com/libp2p/go-libp2p/gologshim"
 	"pgregory.net/rapid"
@@ -249,6 +252,18 @@ func runCase(t *testing.T, rt *rapid.T, name string, sc *scenario) *result {
 			rt.Logf("C15 first failure: %s\nexecuted: %s", res.failure, res.trace)
 		}
 	}()
+	// diagnostics only (no verdict): if the bubble hangs, hx's watchdog reports it a little
+	// later; say which scenario it was
+	done := make(chan struct{})
+	go func() {
+		select {
+		case <-done:
+		case <-time.After(100 * time.Second):
+			js, _ := json.Marshal(sc)
+			fmt.Fprintf(os.Stderr, "C15: this scenario has not finished after 100 s (bus deadlocked on its mutexes?): %s\n", js)
+		}
+	}()
+	defer close(done)
 	hx.Bubble(t, rt, func() { res = runScenario(sc) })
 	record(name, sc, res)
 	if res.failure != "" {
@@ -258,6 +273,9 @@ func runCase(t *testing.T, rt *rapid.T, name string, sc *scenario) *result {
 }
 
 func record(name string, sc *scenario, res *result) {
+	if res.excluded {
+		stats.Excluded(name)
+	}
 	labels := append([]string{}, res.labels...)
 	if res.emits == 0 {
 		labels = append(labels, "no-emit-at-all")
@@ -278,14 +296,14 @@ func propSchedules(t *testing.T, p profile, quick, thorough int) {
 
 // TestBusSchedules: the general schedule space (slow subscribers, long stalls, closes of
 // every kind in every order).
-func TestBusSchedules(t *testing.T) { propSchedules(t, profGeneral, 24000, 1200000) }
+func TestBusSchedules(t *testing.T) { propSchedules(t, profGeneral, 22000, 900000) }
 
 // TestBusConcurrentRaces: few instants, many racing actions (Subscribe / Close / Emit /
 // Emitter.Close at the same instant); also the -race pass.
-func TestBusConcurrentRaces(t *testing.T) { propSchedules(t, profRaces, 20000, 1000000) }
+func TestBusConcurrentRaces(t *testing.T) { propSchedules(t, profRaces, 18000, 750000) }
 
 // TestStatefulReplay: every type stateful, subscriptions arriving between and during emits.
-func TestStatefulReplay(t *testing.T) { propSchedules(t, profStateful, 10000, 500000) }
+func TestStatefulReplay(t *testing.T) { propSchedules(t, profStateful, 9000, 350000) }
 
 // TestBlockedEmitEnumerated enumerates the basic stall shapes completely: one slow
 // subscriber of each kind and buffer size (optionally next to an eager one), a burst of
